@@ -53,6 +53,8 @@ func checkC15(c *Ctx) {
 	c.Rule("C15.R6", "resolves to an allowed target: the value a publish target resolver reports as resolved is an element of the allowed list, or the caller's value on a path that compared it == to an element")
 	c.Rule("C15.R7", "the item index of a publish error is an index into the request's item list: every value reaching the error writer's item-index argument is a loop index over the whole list (directly, via an id→index map or a helper), a constant, or a sub-slice index with the lower bound added back")
 	c.Rule("C15.R8", "the per-route hooks of the admin server (targets, publish switches, managed info, limits) select the compiled route by the same predicate — sibling agreement, so a name that exists for one exists for all")
+	c.Rule("C15.R9", "valid header names/values: the byte classes the header validator accepts, extracted as interval sets from the comparisons that follow each element read, are RFC 7230's tchar for names and non-control bytes (HTAB allowed, DEL not) for values — the classes net/http enforces at delivery")
+	checkHeaderByteClasses(c, "C15.R9")
 	hs := publishHandlers(p)
 	c.Floor("C15.R1", "publish_handlers", len(hs), 2)
 	var builder *ssa.Function
